@@ -141,3 +141,71 @@ for nm_, fld_ in [('add_finish_processing_callback', '_finish_processing_callbac
              ensures={'registered_last': f'len(self.{fld_}) == old(len(self.{fld_})) + 1 and self.{fld_}[-1] == callback and '
                                          f'all(self.{fld_}[j] == old(self.{fld_}[j]) for j in range(old(len(self.{fld_}))))'},
              modifies=[f'self.{fld_}[]'])
+
+# --------------------------------------------------------------------------- shutdown / failure / restore (C13, C06)
+# g_ok: each callback of the kind was invoked once, in registration order, with the documented arguments
+ghost_after('PartProcessor._shutdown', '<entry>', g_ok='True', g_cb='0')
+ghost_after('PartProcessor._shutdown', 'c(self, is_failure, lost_part)',
+            g_ok='g_ok and trace_kind(trace_len() - 1) == 0 and trace_fn(trace_len() - 1) == self._shutdown_callbacks[k] and '
+                 'trace_ref(trace_len() - 1, 0) is self and trace_bool(trace_len() - 1, 0) == is_failure and '
+                 'trace_ref(trace_len() - 1, 1) is lost_part',
+            g_cb='g_cb + 1')
+loop('PartProcessor._shutdown', 1, 'for c in self._shutdown_callbacks',
+     {'callbacks_so_far': 'g_ok and g_cb == k and trace_len() == at_loop_entry(trace_len()) + k',
+      'cycle_time_valid': 'self._cycle_time >= 0'},
+     modifies=['self._waiting_for_downstream_space', 'self._cycle_time', 'self._next_cycle_time_offset', '$trace'], index='k')
+
+contract('PartProcessor._shutdown', props=['C13', 'C06'], args={'is_failure': 'bool', 'lost_part': 'ref:Part'}, modular=True,
+         invariants=False, ghost_results={'g_ok': 'bool', 'g_cb': 'int'},
+         requires=dict({n: t for n, t in PP_INVS.items() if n != 'utilization_stamp_iff_processing'}, **PP_READY,
+                       utilization_stamp_only_while_operational=
+                       'implies(self._last_use_start is not None, not self._is_shut_down)',
+                       callbacks_exist=SPECS.invariants['PartHandler'][0][1],
+                       failure_drops_the_part_first='implies(is_failure, self._part is None)'),
+         ensures=dict({n: t for n, t in PP_INVS.items()},
+                      already_down_is_a_no_op=
+                      'implies(old(self._is_shut_down) and not is_failure, trace_len() == old(trace_len()) and '
+                      '        self._uptime == old(self._uptime) and self._time_in_use == old(self._time_in_use))',
+                      goes_down='self._is_shut_down',
+                      all_events_of_the_machine_paused_or_cancelled=
+                      'implies(not old(self._is_shut_down) or is_failure, '
+                      '  trace_kind(old(trace_len())) == ite(is_failure, fn_id("cancel_matching_events"), fn_id("pause_matching_events")) '
+                      '  and trace_recv(old(trace_len())) is self._env and trace_real(old(trace_len()), 0) == self._id)',
+                      callbacks_once_each_in_order_with_the_lost_part=
+                      'implies(not old(self._is_shut_down) or is_failure, g_ok and g_cb == len(self._shutdown_callbacks) and '
+                      '        trace_len() == old(trace_len()) + 1 + len(self._shutdown_callbacks))',
+                      slots_untouched='self._part is old(self._part) and self._output is old(self._output)',
+                      resources_untouched='self._reserved_resources is old(self._reserved_resources)',
+                      callbacks_exist=SPECS.invariants['PartHandler'][0][1],
+                      **CONT),
+         modifies=['self._is_shut_down', 'self._uptime', 'self._last_restore', 'self._time_in_use', 'self._last_use_start',
+                   'self._waiting_for_part_since', 'self._waiting_for_downstream_space', 'self._cycle_time',
+                   'self._next_cycle_time_offset', '$trace'])
+
+contract('PartProcessor.shutdown', props=['C13'], args={}, requires=PP_READY,
+         ensures={'down_afterwards': 'self._is_shut_down',
+                  'repeated_shutdown_is_a_no_op': 'implies(old(self._is_shut_down), trace_len() == old(trace_len()))',
+                  'events_paused_not_cancelled':
+                      'implies(not old(self._is_shut_down), trace_kind(old(trace_len())) == fn_id("pause_matching_events"))',
+                  'keeps_parts_and_resources': 'self._part is old(self._part) and self._output is old(self._output) and '
+                                               'self._reserved_resources is old(self._reserved_resources)',
+                  **CONT})
+
+ghost_after('PartProcessor._fail', '<entry>', g_ok='True', g_cb='0')
+contract('PartProcessor._fail', props=['C13', 'C06', 'C02', 'C11', 'C15'], args={},
+         requires=dict(PP_READY, reservation_belongs_to_the_pool=
+                       'implies(self._reserved_resources is not None, '
+                       '  self._reserved_resources._resource_manager is self._env.resource_manager and '
+                       '  all(n in self._env.resource_manager._resources for n in self._reserved_resources._reserved_resources))'),
+         ensures={
+             'C13,C02/discards_exactly_the_part_in_process_keeps_the_finished_one':
+                 'self._part is None and self._output is old(self._output)',
+             'C11/gives_the_resources_back': 'self._reserved_resources is None',
+             'C13,C15/one_failure_record_with_the_lost_part':
+                 'any(trace_kind(i) == fn_id("add_datapoint") and trace_ref(i, 0) == "device_failure" and '
+                 '    trace_real(i, 0) == self._env._now for i in range(old(trace_len()), trace_len()))',
+             'C13,C06/failure_cancels_every_event_of_the_machine_and_reports_the_lost_part_once':
+                 'self._is_shut_down and g_ok and g_cb == len(self._shutdown_callbacks) and '
+                 'any(trace_kind(i) == fn_id("cancel_matching_events") and trace_real(i, 0) == self._id '
+                 '    for i in range(old(trace_len()), trace_len()))',
+             **CONT})
